@@ -42,6 +42,7 @@ func opName(raw json.RawMessage) string {
 
 type ReflStats struct {
 	States, Transitions, Edges, Reads int64
+	NilOrigins, NilChecks            int64
 	Jobs                              int
 	Sample                            any
 }
@@ -107,6 +108,8 @@ func runMCReflect(c *Ctx, jobs []ReflJob) ([]ReflVerdict, *ReflStats) {
 			var sum struct {
 				Edges, States, Reads int64
 				Ops, Rdops           int
+				NilOrigins           int64 `json:"nil_origins"`
+				NilChecks            int64 `json:"nil_checks"`
 			}
 			ok := false
 			for sc.Scan() {
@@ -135,6 +138,8 @@ func runMCReflect(c *Ctx, jobs []ReflJob) ([]ReflVerdict, *ReflStats) {
 			st.Transitions += res.Generated
 			st.Edges += sum.Edges
 			st.Reads += sum.Reads
+			st.NilOrigins += sum.NilOrigins
+			st.NilChecks += sum.NilChecks
 			st.Jobs++
 			if st.Sample == nil {
 				st.Sample = map[string]any{"job": job, "mutating_ops": sum.Ops, "read_ops": sum.Rdops, "history_example": "Set(oi,1); Clear(os) => oneof still holds oi; then all read ops compared"}
@@ -219,6 +224,9 @@ func mcReflectCheck(c *Ctx, inScope func(v ReflVerdict) bool) {
 	c.R.Cov["mc_reflect_jobs"] = st.Jobs
 	c.R.Cov["mc_reflect_edges_replayed"] = st.Edges
 	c.R.Cov["mc_reflect_reads_compared"] = st.Reads
+	c.R.Cov["nil_origins_exercised"] = st.NilOrigins
+	c.R.Cov["nil_operation_checks"] = st.NilChecks
+	c.R.AddCount("evaluations", st.NilChecks)
 	c.R.Cov["exhaustive"] = true
 	c.R.Cov["rule"] = "every history of mutating protoreflect operations up to MaxLen over the schema-derived operation alphabet; each transition replayed on pulsar and dynamicpb in lock-step; in every distinct state all read operations compared"
 	if st.Sample != nil {
@@ -231,6 +239,10 @@ var reflTrusted = []string{"TLC 1.8.0 / SANY", "CommunityModules Json/IOUtils", 
 func init() {
 	register(&Check{ID: "C08", Level: "model_checking", Run: func(c *Ctx) {
 		c.R.Trusted = reflTrusted
-		mcReflectCheck(c, func(v ReflVerdict) bool { return true })
+		mcReflectCheck(c, func(v ReflVerdict) bool { return !strings.HasPrefix(v.What, "nil:") })
+	}})
+	register(&Check{ID: "C09", Level: "model_checking", Run: func(c *Ctx) {
+		c.R.Trusted = reflTrusted
+		mcReflectCheck(c, func(v ReflVerdict) bool { return strings.HasPrefix(v.What, "nil:") })
 	}})
 }
